@@ -542,3 +542,57 @@ len_split_agree!(c07_len_split_agree_i64, ValueKind::I64, 10);
 len_split_agree!(c07_len_split_agree_f32, ValueKind::F32, 5);
 // obligation: C07.len_split_agree_uuid | harness: c07_len_split_agree_uuid | kind: complete | bound: none (all payload bytes of the longest encoding, 17 bytes) | tier: quick
 len_split_agree!(c07_len_split_agree_uuid, ValueKind::Uuid, 17);
+
+// ------------------------------------------------------------------------------------------------------------
+// NOT covered: the nesting limit inside Deserializer::skip (Some / Enum / container arms recursing into skip). Even with
+// every byte of the input concrete and unwind(3), one nested skip did not produce a verdict in 540-600 s (measured): CBMC
+// does not fold the kind byte read behind `&mut &[u8]`, so the second level expands all 66 arms again.
+
+// C07: String / Bytes1 values: skip = varint length prefix + that many bytes, Err exactly when fewer bytes are present.
+// (Decoding strings is out of reach - Buf::copy_to_bytes - so the skip side is checked against the wire format.)
+macro_rules! skip_len_prefixed {
+    ($name:ident, $kind:expr) => {
+        #[kani::proof]
+        #[kani::unwind(5)]
+        fn $name() {
+            let mut data: [u8; 8] = kani::any();
+            data[0] = $kind as u8;
+            // wire format: u32 varint n (N = 4): first <= 251 -> n = first, 1 byte; first = 251 + k -> k payload bytes
+            let first = data[1];
+            let (n, plen): (u64, usize) = if first <= 251 {
+                (first as u64, 1)
+            } else {
+                let k = (first - 251) as usize;
+                let mut v: u64 = 0;
+                let mut i = 0;
+                while i < k {
+                    v |= (data[2 + i] as u64) << (8 * i);
+                    i += 1;
+                }
+                (v, 1 + k)
+            };
+            let mut s: &[u8] = &data;
+            let r = match Deserializer::new(&mut s, 0) {
+                Ok(dz) => dz.skip(),
+                Err(_) => {
+                    assert!(false);
+                    return;
+                }
+            };
+            let avail = (8 - 1 - plen) as u64;
+            if n <= avail {
+                assert!(r.is_ok());
+                assert!(s.len() as u64 == avail - n);
+            } else {
+                assert!(r.is_err());
+            }
+            kani::cover!(r.is_ok() && first > 251);
+            kani::cover!(r.is_err());
+        }
+    };
+}
+
+// obligation: C07.skip_string_value | harness: c07_skip_string_value | kind: bounded | bound: input 8 bytes (length prefix of every varint width) | tier: quick
+skip_len_prefixed!(c07_skip_string_value, ValueKind::String);
+// obligation: C07.skip_bytes1_value | harness: c07_skip_bytes1_value | kind: bounded | bound: input 8 bytes (length prefix of every varint width) | tier: quick
+skip_len_prefixed!(c07_skip_bytes1_value, ValueKind::Bytes1);
